@@ -118,6 +118,11 @@ type env struct {
 	// answered and the implementation may keep or drop them; if one resolves, its result arrives on the
 	// current primary's stream under an id that stream also uses (known finding KF-C06-1).
 	shadow map[uint64]*opRec
+	// postpone: when set, successes whose references are not acknowledged yet are collected here instead of
+	// being judged (results for them may be waiting on another session's stream)
+	postpone *[]*spb.AFTResult
+	// altPayload: see reportDiffs
+	altPayload map[Key][]proto.Message
 	// lostRole: sessions that may have lost the primary role at some instant of a concurrent run (set by the
 	// concurrent families for their final checks only)
 	lostRole map[int]bool
@@ -446,6 +451,11 @@ func (e *env) processResults(s *session, rs []*spb.ModifyResponse) {
 			}
 			if len(deferred) > 0 && progress {
 				e.probe("results of one response listed in another order than their references resolve")
+			}
+			if !progress && e.postpone != nil && pass < 8 {
+				// their references may be acknowledged on another stream that is read next (see modify)
+				*e.postpone = append(*e.postpone, deferred...)
+				break
 			}
 			if !progress {
 				pass = 8 // nothing else can help: judge the rest as they come
@@ -794,13 +804,9 @@ func (e *env) discarded(rec *opRec, implHolds map[uint64]bool) bool {
 	if rec.state != opHeld || implHolds[rec.op.GetId()] || !(rs.dead || rs.closed || rs.elec != e.maxElec) {
 		return false
 	}
-	switch v, en, why := e.model.Expect(rec.op); {
-	case v == VHold:
-	case v == VEither && en != nil && !e.model.Resolvable(en):
-	case v == VFail && why == "replace of missing entry":
-	default:
-		return false
-	}
+	// (whatever the model would say about it now: a server may discard it at the hand-over, or later when it
+	// next walks what it holds - by then the references may well resolve; if it was installed without an
+	// answer instead, the comparison of the installed entries says so)
 	e.probe("held operation of a departed or superseded session discarded by the server")
 	rec.state, rec.unacked = opFailed, true
 	return true
@@ -1073,6 +1079,21 @@ func (e *env) reportDiffs(prop, via string, ds []Diff) {
 		case "payload":
 			if en := e.model.Tab[d.Key]; en != nil && en.Loose {
 				continue // content of an Unspecified operation: not predicted
+			}
+			if en := e.model.Tab[d.Key]; en != nil {
+				// two operations for this key were acknowledged on DIFFERENT streams at the same quiescent point (a
+				// server that routes the results of held operations to their owners): which of them was installed
+				// last cannot be told from the outside - the installed payload must be one of the two
+				ok := false
+				for _, alt := range e.altPayload[d.Key] {
+					if compact(normalize(alt)) == d.Got {
+						en.Msg, ok = alt, true
+						e.probe("payload settled between two acknowledgements that travelled on different streams")
+					}
+				}
+				if ok {
+					continue
+				}
 			}
 			p := prop
 			if e.sc.Cfg.FullPayl {
